@@ -693,6 +693,62 @@ def transport(ta, tns, via):
         return copy.deepcopy(ta, {id(tns): tns})
     return ta
 
+
+# ======================================================================================= samples with differing leaf sets
+def spec_of(shape, rooted, weight=None):
+    """a tree given as nested lists of taxon numbers -> specification (all edge lengths 1, root length undefined)"""
+    par, tax = [], []
+
+    def number(sh, p):
+        i = len(par)
+        par.append(p)
+        tax.append("-" if isinstance(sh, list) else str(sh))
+        if isinstance(sh, list):
+            for c in sh:
+                number(c, i)
+        return i
+    number(shape, -1)
+    n = len(par)
+    toks = [str(n)] + [str(x) for x in par] + tax + ["N"] + ["1"] * (n - 1) + ["-"] * n
+    return {"toks": toks, "rooted": rooted, "weight": None if weight is None else tu.frac(weight)}
+
+
+def leafset_grid_cases():
+    """run first on every run: samples in which one tree lacks a taxon, so that a split is trivial (or the root) in one tree and an
+    ordinary internal split in another; the same sample built by every route - add orders, insert, sub-collections (one empty)
+    merged with update / extend / += / + in either arrival order.  Per-tree product and sum scores, the maximisers and the MCC
+    topology of every array are judged by brute force relative to each tree's OWN leaf set."""
+    out = []
+    for rooted in (True, False):
+        six_a = spec_of([[[[0, 1], [2, 3]], 4], 5], rooted)          # {0123} internal, {01234} trivial
+        six_b = spec_of([[[[0, 2], [1, 3]], 4], 5], rooted)
+        six_c = spec_of([[[0, 1], [2, 3]], [4, 5]], rooted, Fraction(3, 2))
+        five = spec_of([[[0, 1], [2, 3]], 4], rooted)                # {0123} trivial, {01234} its root
+        five_b = spec_of([[[0, 2], [1, 3]], 4], rooted)
+        tail = spec_of([[1, 2], [[3, 4], 5]], rooted)                # lacks taxon 0
+        samples = [[six_a, five, six_b], [five, six_a, six_a, six_b], [six_a, six_c, five, five_b, six_b], [tail, six_c, six_a, five]]
+        for sample in samples:
+            n = len(sample)
+            orders = [list(range(n)), list(reversed(range(n))), list(range(1, n)) + [0]]
+            for order in orders:
+                out.append({"mode": "hist", "ntaxa": 6, "ops": [["new", None, 1, 1, 1]] + [["add", 0, "add_tree", sample[j]] for j in order]})
+            # insert at the front / before the last: the stored order is not the order of the calls
+            out.append({"mode": "hist", "ntaxa": 6, "ops": [["new", None, 1, 1, 1]] + [["ins", 0, 0, sample[j]] for j in range(n)]})
+            out.append({"mode": "hist", "ntaxa": 6, "ops": [["new", rooted, 1, 1, 1]] + [["ins", 0, -1, sample[j]] for j in range(n)]})
+            # two sub-collections and an empty one, merged in either arrival order by every operation
+            cut = n // 2
+            parts = [list(range(cut)), list(range(cut, n)), []]
+            for k, op in enumerate(("upd", "ext", "iadd")):
+                for arrival in ([0, 1, 2], [2, 1, 0], [1, 2, 0]):
+                    out.append({"mode": "hist", "ntaxa": 6,
+                                "ops": partition_history(sample, [1, 1, 1], None, parts, arrival, op, None, None,
+                                                         [None, "pickle", None] if k == 0 else None)})
+            ops = [["new", None, 1, 1, 1], ["new", None, 1, 1, 1], ["new", None, 1, 1, 1]]
+            ops += [["add", 0, "add_tree", sample[j]] for j in parts[0]] + [["add", 1, "append", sample[j]] for j in parts[1]]
+            ops += [["plus", 0, 1], ["plus", 1, 0], ["plus", 2, 3], ["plus", 4, 2]]
+            out.append({"mode": "hist", "ntaxa": 6, "ops": ops})
+    return out
+
 # ======================================================================================= histories
 def err_name(e):
     n = type(e).__name__
@@ -1055,20 +1111,35 @@ def check_queries(fail, i, o, qres, fr, full):
         fail("mcc", "array %d: maximum credibility score %r, brute force %r" % (i, qres["mcc_score"], math.log(best)))
         return True
     others = [x for x in exact if x != best]
-    tops = {tuple(want_sets[j]) for j in range(n) if exact[j] == best}
-    if len(tops) == 1 and all(float(x) < float(best) * (1 - 1e-9) for x in others) and all(r["leafset"] == full for r in trees):
-        got = sorted(s for s in qres["mcc"] if nontrivial(s, full))
-        want = sorted(s for s in next(iter(tops)) if nontrivial(s, full))
+    safe = all(float(x) < float(best) * (1 - 1e-9) for x in others)
+    at = [j for j in range(n) if exact[j] == best]
+    if safe and idx not in at:
+        fail("mcc", "array %d: calculate_log_product_of_split_supports reports tree %s as the maximiser; by brute force the maximum is attained by tree(s) %s" % (i, idx, at))
+        return True
+    tops = {(trees[j]["leafset"], tuple(want_sets[j])) for j in at}
+    same_leafsets = all(r["leafset"] == full for r in trees)
+    if len(tops) == 1 and safe and (same_leafsets or all(r["rooted"] for r in trees)):
+        # the maximum-credibility topology, read relative to the maximiser's own leaf set (a restored tree spans the whole namespace)
+        ls, top = next(iter(tops))
+        got = sorted(s for s in qres["mcc"] if (s & ~ls) == 0 and nontrivial(s, ls))
+        want = sorted(s for s in top if nontrivial(s, ls))
         if got != want:
             fail("mcc", "array %d: maximum-credibility topology %s, unique maximiser is %s" % (i, got, want))
             return True
     # sum of supports
-    ssum, _ = qres["sums"]
+    ssum, sidx = qres["sums"]
+    wsum = []
     for j in range(n):
-        want = float(sum((fr.get(e[0], Fraction(0)) for e in trees[j]["entries"] if qualifies(e[0], trees[j]["leafset"])), Fraction(0)))
-        if not close(ssum[j], want):
-            fail("mcc", "array %d: sum of supports of tree %d is %r, brute force %r" % (i, j, ssum[j], want))
+        want = sum((fr.get(e[0], Fraction(0)) for e in trees[j]["entries"] if qualifies(e[0], trees[j]["leafset"])), Fraction(0))
+        wsum.append(want)
+        if not close(ssum[j], float(want)):
+            fail("mcc", "array %d: sum of supports of tree %d is %r, brute force %r" % (i, j, ssum[j], float(want)))
             return True
+    sbest = max(wsum)
+    if all(float(x) < float(sbest) - 1e-9 for x in wsum if x != sbest) and wsum[sidx] != sbest:
+        fail("mcc", "array %d: calculate_sum_of_split_supports reports tree %s as the maximiser; by brute force the maximum is attained by tree(s) %s" % (
+            i, sidx, [j for j in range(n) if wsum[j] == sbest]))
+        return True
     # majority-rule consensus: exactly the non-trivial splits with frequency >= theta; support annotation = frequency
     if all(r["leafset"] == full for r in trees):
         from dendropy.utility import constants
@@ -1242,7 +1313,7 @@ def gen_history(rng, max_taxa=7, max_ops=14):
     def via():
         return [rng.choice(["pickle", "pickle", "deepcopy"])] if rng.random() < 0.3 else []
     base = [0 if ages_mode or rng.random() < 0.8 else 1, 0 if ages_mode else 1, 1 if weights_mode or rng.random() < 0.7 else 0]
-    subsets = rng.random() < 0.1
+    subsets = rng.random() < 0.2
     tie_mode = rng.random() < 0.15      # two topologies per rooting state, repeated: exact frequency ties
     pool = []
 
@@ -1927,6 +1998,7 @@ def gen_sched_files(rng, nfiles, max_taxa=6, max_trees=3, allow_empty_file=False
     if force_ages is not None:
         ages = force_ages
     ties = rng.random() < 0.3          # few distinct topologies, each repeated: exact frequency ties between conflicting splits
+    subsets = rng.random() < 0.15      # some trees lack a taxon
     flags = [0 if ages or rng.random() < 0.75 else 1, 0 if ages else 1, 1 if weights or rng.random() < 0.6 else 0]
     files = []
     pool = []
@@ -1938,7 +2010,10 @@ def gen_sched_files(rng, nfiles, max_taxa=6, max_trees=3, allow_empty_file=False
                 f.append(rng.choice(pool))
                 continue
             w = Fraction(rng.randint(1, 6), rng.choice([1, 2, 4])) if weights and not ties and rng.random() < 0.7 else None
-            s = gen_spec(rng, list(range(ntaxa)), None, ultrametric=ages, none_rate=0.0 if ages else rng.choice([0.0, 0.3]), weight=w,
+            bits = list(range(ntaxa))
+            if subsets and rng.random() < 0.4:
+                bits = sorted(rng.sample(range(ntaxa), ntaxa - 1))
+            s = gen_spec(rng, bits, None, ultrametric=ages, none_rate=0.0 if ages else rng.choice([0.0, 0.3]), weight=w,
                          p_poly=0.0 if ties else rng.choice([0.0, 0.3]), basal2=rng.random() < 0.5)
             pool.append(s)
             f.append(s)
@@ -2088,13 +2163,17 @@ def exec_cli(ctx, dendropy, case):
 def run(ctx):
     dendropy = __import__("dendropy")
     rng = ctx.rng
-    ctx.set_budget(42, 640)
+    ctx.set_budget(50, 640)
     pending = []
     # ---- the two hand-reproduced defects, always first (cheap, deterministic)
     for case in seed_cases():
         run_any(ctx, dendropy, case, pending)
+    # ---- the fixed opening grid: samples whose trees do not share one leaf set, built by every route
+    for case in leafset_grid_cases():
+        run_hist_case(ctx, dendropy, case, pending, "leafset-grid")
+    flush(ctx, pending)
     # ---- random histories
-    t_hist = ctx.pick(13, 200)
+    t_hist = ctx.pick(19, 200)
     n = 0
     while n < ctx.pick(700, 12000) and (ctx.budget_s - ctx.time_left()) < t_hist:
         case = gen_history(rng, max_taxa=ctx.pick(7, 9), max_ops=ctx.pick(14, 20))
@@ -2170,7 +2249,13 @@ def gen_partition_case(rng, ntrees=None, nparts=None):
     ages = rng.random() < 0.45
     wts = rng.random() < 0.4
     flags = [0 if ages or rng.random() < 0.8 else 1, 0 if ages else 1, 1]
-    specs = [gen_spec(rng, list(range(ntaxa)), r, ultrametric=ages, none_rate=rng.choice([0.0, 0.3]),
+    subsets = rng.random() < 0.25       # some trees lack a taxon: scores are relative to each tree's own leaf set
+
+    def bits():
+        if subsets and rng.random() < 0.4:
+            return sorted(rng.sample(range(ntaxa), ntaxa - 1))
+        return list(range(ntaxa))
+    specs = [gen_spec(rng, bits(), r, ultrametric=ages, none_rate=rng.choice([0.0, 0.3]),
                       weight=Fraction(rng.randint(1, 6), rng.choice([1, 2])) if wts and rng.random() < 0.6 else None,
                       p_poly=rng.choice([0.0, 0.3]), basal2=rng.random() < 0.4) for _ in range(ntrees)]
     if ntrees >= 2 and rng.random() < 0.5:
@@ -2370,7 +2455,7 @@ def search(ctx, broken):
     dendropy = __import__("dendropy")
     pending = []
     before = len(ctx.failures)
-    for case in fresh_settings_cases() + decision_table_cases() + burnin_cases():
+    for case in leafset_grid_cases() + fresh_settings_cases() + decision_table_cases() + burnin_cases():
         run_hist_case(ctx, dendropy, case, pending, "search")
         if len(pending) >= 200:
             flush(ctx, pending)
